@@ -174,17 +174,27 @@ def dump(
         }
 
     # It's not a standard type, so it needs __jsonclass__
-    module_name = inspect.getmodule(type(obj)).__name__
-    json_class = obj.__class__.__name__
+    clazz = obj.__class__
+    module = inspect.getmodule(clazz)
+    module_name = module.__name__ if module is not None else ""
+    json_class = clazz.__name__
 
-    if module_name not in ("", "__main__"):
+    if (
+        module_name not in ("", "__main__")
+        and getattr(module, json_class, None) is clazz
+    ):
+        # The class can be found again with its module path
         json_class = "{0}.{1}".format(module_name, json_class)
     else:
-        # Local class: use the name it has been registered with
+        # Local class (from the main script, defined in a function...):
+        # use the name it has been registered with
         for local_name, local_class in config.classes.items():
-            if local_class is obj.__class__:
+            if local_class is clazz:
                 json_class = local_name
                 break
+        else:
+            if module_name not in ("", "__main__"):
+                json_class = "{0}.{1}".format(module_name, json_class)
 
     # Keep the class name in the returned object
     return_obj = {"__jsonclass__": [json_class]}
